@@ -15,6 +15,45 @@ static sqf::runtime::runtime::result execute_do(sqf::runtime::runtime& runtime, 
 {
     auto& context_active = runtime.context_active();
     auto& runtime_error = runtime.__runtime_error();
+    // Handles a raised runtime error: hands it to the nearest frame that can recover,
+    // or logs the stacktrace. Returns true if no frame could recover.
+    auto handle_runtime_error = [&](sqf::runtime::diagnostics::diag_info dinf) -> bool
+    {
+        auto log_messages = runtime.log_messages;
+        runtime.log_messages.clear();
+        // Build Stacktrace
+        std::vector<sqf::runtime::frame> stacktrace_frames(context_active.frames_rbegin(), context_active.frames_rend());
+        sqf::runtime::diagnostics::stacktrace stacktrace(stacktrace_frames);
+
+        // Try to find a frame that has recover behavior for runtime error
+        auto res = std::find_if(context_active.frames_rbegin(), context_active.frames_rend(),
+            [](sqf::runtime::frame& frame) -> bool { return frame.can_recover_runtime_error(); });
+
+        if (res != context_active.frames_rend())
+        { // We found a recoverable frame
+            stacktrace.value = std::make_shared<sqf::types::d_array>(log_messages.begin(), log_messages.end());
+            // Push Stacktrace to value-stack
+            context_active.push_value({ std::make_shared<sqf::types::d_stacktrace>(stacktrace) });
+
+            // Pop all frames between result and current_frame
+            size_t frames_to_pop = res - context_active.frames_rbegin();
+            for (size_t i = 0; i < frames_to_pop; i++)
+            {
+                context_active.pop_frame();
+            }
+
+            // Recover from exception
+            context_active.current_frame().recover_runtime_error(runtime);
+            runtime_error = false;
+            return false;
+        }
+        else
+        { // No recover frame available, exit method
+            runtime.__logmsg(logmessage::runtime::Stacktrace(dinf, stacktrace));
+            runtime_error = false;
+            return true;
+        }
+    };
     while (true)
     {
         if (runtime.is_exit_requested())
@@ -73,6 +112,15 @@ static sqf::runtime::runtime::result execute_do(sqf::runtime::runtime& runtime, 
         auto& frame = context_active.current_frame();
 
         auto result = frame.next(runtime);
+
+        if (runtime_error)
+        { // an exit behavior raised an error: it must not wait for (or miss) the next instruction
+            if (handle_runtime_error(frame.diag_info_from_position()))
+            {
+                return sqf::runtime::runtime::result::runtime_error;
+            }
+            continue;
+        }
 
         if (result == sqf::runtime::frame::result::done && context_active.frames_size() == frame_count)
         { // frame is done executing. Pop it from context and rerun.
@@ -213,47 +261,9 @@ static sqf::runtime::runtime::result execute_do(sqf::runtime::runtime& runtime, 
         {
             runtime.log_messages.clear();
         }
-        else
+        else if (handle_runtime_error((*instruction)->diag_info()))
         {
-            auto log_messages = runtime.log_messages;
-            runtime.log_messages.clear();
-            // Build Stacktrace
-            std::vector<sqf::runtime::frame> stacktrace_frames(context_active.frames_rbegin(), context_active.frames_rend());
-            sqf::runtime::diagnostics::stacktrace stacktrace(stacktrace_frames);
-
-            // Try to find a frame that has recover behavior for runtime error
-            auto res = std::find_if(context_active.frames_rbegin(), context_active.frames_rend(),
-                [](sqf::runtime::frame& frame) -> bool { return frame.can_recover_runtime_error(); });
-
-            if (res != context_active.frames_rend())
-            { // We found a recoverable frame
-                stacktrace.value = std::make_shared<sqf::types::d_array>(log_messages.begin(), log_messages.end());
-                // Push Stacktrace to value-stack
-                context_active.push_value({ std::make_shared<sqf::types::d_stacktrace>(stacktrace) });
-
-                // Pop all frames between result and current_frame
-                size_t frames_to_pop = res - context_active.frames_rbegin();
-                for (size_t i = 0; i < frames_to_pop; i++)
-                {
-                    context_active.pop_frame();
-                }
-
-                // Recover from exception
-                context_active.current_frame().recover_runtime_error(runtime);
-                runtime_error = false;
-            }
-            else
-            { // No recover frame available, exit method
-#ifdef DF__SQF_RUNTIME__ASSEMBLY_DEBUG_ON_EXECUTE
-                std::cout << "\x1B[33m[ASSEMBLY ASSERT]\033[0m" <<
-                    "        " <<
-                    "        " <<
-                    "    " << "\x1B[36mEXIT execute_do\033[0m as runtime error occured" << std::endl;
-#endif // DF__SQF_RUNTIME__ASSEMBLY_DEBUG_ON_EXECUTE
-                runtime.__logmsg(logmessage::runtime::Stacktrace((*instruction)->diag_info(), stacktrace));
-                runtime_error = false;
-                return sqf::runtime::runtime::result::runtime_error;
-            }
+            return sqf::runtime::runtime::result::runtime_error;
         }
     }
 }
